@@ -15,8 +15,8 @@
    additionally needs the invariant of the old listing (entries not yet passed are untouched,
    entries below a replaced directory are skipped); see props/C03.json unproved_statements. *)
 From Coq Require Import List NArith Bool String Ascii.
-From FS Require Import Sx Model.Path Model.Stat Model.Validator Model.Fs Model.DiskWriterFs.
-From FS Require Import Proofs.FsP Proofs.FsReachP Proofs.RecvP Proofs.FsWfP Proofs.C03P.
+From FS Require Import Sx Model.Path Model.Stat Model.Validator Model.Fs Model.DiskWriterFs Model.RecvSpec.
+From FS Require Import Proofs.FsP Proofs.FsReachP Proofs.RecvP Proofs.FsWfP Proofs.C03P Proofs.RejectP.
 Import ListNotations.
 Open Scope N_scope.
 
@@ -39,7 +39,25 @@ Theorem receiver_contained_partial :
     outside_unchanged D f (recv_fs_prefix f root D dl true tmps pks j).
 Proof. exact receiver_contained_merge. Qed.
 
+(* A stream that the stream-only specification (Model/RecvSpec.v) calls bad at packet b — a STAT
+   whose path is not a clean relative path inside the root, not strictly after every earlier path,
+   or whose parent was not sent before as a directory; a hard link to a path not sent before;
+   content for an id no earlier STAT announced as a regular file — makes the receive call fail at
+   or before b (error return, or the "closed channel" panic when a STAT follows the terminator),
+   it never succeeds, and the file system is the one left by the packets before b: nothing of the
+   offending packet or of any later one is applied.  No hypothesis on the file system, the
+   destination, Merge or the temporary names. *)
+Theorem bad_stream_rejected :
+  forall (f : fs) (root D : N) (dl merge : bool) (tmps : list bytes) (pks : list packet) (b : nat),
+    spec_bad pks sspec_init 0 = Some b ->
+    let st := recv_fs f root D dl merge tmps pks in
+    (exists k, (k <= b)%nat /\ (r_out st = Failed k \/ r_out st = Panicked k))
+    /\ recv_succeeds st = false
+    /\ r_fs st = r_fs (recv_fs f root D dl merge tmps (firstn b pks)).
+Proof. exact bad_stream_rejected_proof. Qed.
+
 Print Assumptions receiver_contained_partial.
+Print Assumptions bad_stream_rejected.
 
 (* ---- non-vacuity: a hostile destination and a hostile stream inside the hypotheses ---- *)
 Fixpoint bs (s : string) : bytes :=
@@ -77,6 +95,10 @@ Definition ex_run : rstate := recv_fs ex_fs 1 ex_D false true [] ex_pks.
 (* the hypotheses of the theorem hold for this case *)
 Example example_in_domain : ex_D = 5 /\ domain_b 8 ex_fs ex_D [] ex_pks = true.
 Proof. vm_compute. split; reflexivity. Qed.
+
+(* the specification calls the stream bad at packet 6 (the path "..") *)
+Example example_spec_bad : spec_bad ex_pks sspec_init 0 = Some 6%nat.
+Proof. vm_compute. reflexivity. Qed.
 
 (* the stream is rejected at the escaping path (packet 6), after the six effects of the first six packets *)
 Example example_rejected : r_out ex_run = Failed 6 /\ r_applied ex_run = 6%nat.
